@@ -61,7 +61,8 @@ def _warm_dispatch():
             pass
 
 
-_warm_dispatch()
+if not any(a.endswith("-child") for a in sys.argv):
+    _warm_dispatch()
 
 # ------------------------------------------------------------------ generated Coq table
 
@@ -82,8 +83,21 @@ def ensure_generated():
     os.makedirs(d, exist_ok=True)
     # GenRdtypes.v: the table and the model's `run` (must compile even when a theorem fails, so
     # that the correspondence still pinpoints the disagreeing type); GenProofs.v: the theorems
-    src = TR.emit_coq(tr) + "\nDefinition run : obs -> obs := run_tbl table.\n"
-    proofs = r"""From DV Require Import Base.Prelude Model.NameM Model.SchemaM Proofs.SchemaCodec Proofs.SchemaTable Proofs.SchemaOrigin.
+    src = TR.emit_coq(tr).replace("Model.SchemaM.", "Model.SchemaM Model.DispatchM.", 1) + """
+(* members of dns.rdatatype.RdataType (what load_all_types walks) and the module set *)
+Definition rdatatype_members : list Z := [%s].
+Definition mods : list key := map (fun e => (e_class e, e_type e)) table.
+Definition run (c : obs) : obs :=
+  match c with
+  | L [I 22; L steps] =>
+      match steps_of_obs steps with
+      | Some h => L (run_history mods rdatatype_members h init_state)
+      | None => E eBadCase
+      end
+  | _ => run_tbl table c
+  end.
+""" % "; ".join(str(v) for v in tr["rdatatype_members"])
+    proofs = r"""From DV Require Import Base.Prelude Model.NameM Model.SchemaM Model.DispatchM Proofs.SchemaCodec Proofs.SchemaTable Proofs.SchemaOrigin Proofs.SchemaDispatch.
 From Scratch Require Import GenRdtypes.
 Open Scope Z_scope.
 Theorem gen_table_ok : forallb entry_ok table = true.
@@ -112,9 +126,15 @@ Theorem gen_table_roundtrip_origin : forall o e w r ck vs b A P,
   encode_rdata (Some o) (map fst w) ck vs = Ok b ->
   decode_rdata (Some o) (map fst r) ck (A ++ b ++ P) (length A) (length b) = Ok vs.
 Proof. intros. eapply table_roundtrip_origin_thm; eauto. exact gen_table_ok. Qed.
+(* get_rdata_class on the module set of this tree: history-independent for safe histories *)
+Theorem gen_dispatch_history_correct : forall h,
+  forallb (safe_step mods) h = true ->
+  run_history mods rdatatype_members h init_state = expected mods h.
+Proof. apply dispatch_history_correct_thm; vm_compute; reflexivity. Qed.
 Print Assumptions gen_table_roundtrip.
 Print Assumptions gen_table_fixed_point.
 Print Assumptions gen_table_roundtrip_origin.
+Print Assumptions gen_dispatch_history_correct.
 """
     path = os.path.join(d, "GenRdtypes.v")
     with open(path, "w") as f:
@@ -122,12 +142,12 @@ Print Assumptions gen_table_roundtrip_origin.
     ppath = os.path.join(d, "GenProofs.v")
     with open(ppath, "w") as f:
         f.write(proofs)
-    lib.coq_make(["Proofs/SchemaOrigin.vo"])
+    lib.coq_make(["Proofs/SchemaOrigin.vo", "Proofs/SchemaDispatch.vo"])
     rc0, out0, _ = lib.run_cmd(["coqc", "-Q", lib.COQ, "DV", "-Q", d, "Scratch", path], timeout=900)
     rc, out, dt = (1, "table file did not compile:\n" + out0, 0) if rc0 != 0 else lib.run_cmd(["coqc", "-Q", lib.COQ, "DV", "-Q", d, "Scratch", ppath], timeout=900)
-    thms = ["gen_table_ok", "gen_table_origin_exceptions", "gen_table_roundtrip", "gen_table_fixed_point", "gen_table_roundtrip_origin", "translation_closed"]
+    thms = ["gen_table_ok", "gen_table_origin_exceptions", "gen_table_roundtrip", "gen_table_fixed_point", "gen_table_roundtrip_origin", "gen_dispatch_history_correct", "translation_closed"]
     ok = rc == 0 and tr["ok"]
-    discharged = (5 if rc == 0 else 0) + (1 if tr["ok"] else 0)
+    discharged = (6 if rc == 0 else 0) + (1 if tr["ok"] else 0)
     if rc == 0 and "Closed under the global context" not in out:
         ok = False
     log = ""
@@ -136,7 +156,7 @@ Print Assumptions gen_table_roundtrip_origin.
     if rc != 0:
         log += "generated table does not check:\n" + out[-2500:]
     _gen_state.update(
-        ok=ok, obligations=6, discharged=discharged, theorems=thms, log=log, compiled=(rc0 == 0),
+        ok=ok, obligations=7, discharged=discharged, theorems=thms, log=log, compiled=(rc0 == 0),
         info={"types_schema": sum(1 for t in tr["types"] if t["kind"] == "schema"),
               "types_hand": sorted(t["name"] for t in tr["types"] if t["kind"] == "hand"),
               "types_error": sorted(t["name"] for t in tr["types"] if t["kind"] == "error"),
@@ -375,6 +395,9 @@ def cases(ctx):
         pre = bytes(rng.randrange(256) for _ in range(rng.choice([0, 3])))
         yield dec_case(cl, ty, pre + data + b"\x01", len(pre), len(data), None)
     ctx.notes["types_covered"] = len(types)
+    # ---- get_rdata_class lookup histories, each in a fresh interpreter
+    for h in histories(ctx):
+        yield "history", [22, h]
     # ---- get_rdata_class dispatch in the three loader states (fresh child process each)
     for mode in DISPATCH_MODES:
         items = []
@@ -390,6 +413,46 @@ def cases(ctx):
         for ty in UNKNOWN_TYPES[:3]:
             items.append([rng.choice([1, 3]), ty, [R.gen_bytes(rng, 7)], None])
         yield "dispatch", [21, mode, items]
+
+
+HIST_CLASSES = [1, 1, 3, 4, 255, 255, 254, 65280]
+HIST_TYPES = [1, 1, 28, 15, 2, 33, 16, 41, 250, 64, 65280, 0, 99]
+
+
+def history_safe(h):
+    tab = T()
+    for st in h:
+        if st[0] == 0 and st[1] == 255:
+            t = st[2]
+            if (255, t) not in tab._by and any(k[1] == t for k in tab._by):
+                return False
+    return True
+
+
+def histories(ctx):
+    rng = ctx.rng
+    fixed = [
+        [[0, 255, 1], [0, 1, 1]],                      # the known poisoning sequence
+        [[0, 1, 1], [0, 255, 1], [0, 1, 1]],
+        [[1, 1], [0, 3, 15], [0, 4, 2], [0, 3, 28], [0, 3, 1], [0, 1, 1]],
+        [[1, 0], [0, 3, 15], [0, 255, 15], [0, 255, 33], [0, 1, 33]],
+        [[0, 4, 15], [0, 1, 15], [0, 255, 15], [1, 1], [0, 65280, 15], [0, 3, 16]],
+        [[1, 1], [1, 1], [0, 255, 41], [0, 1, 41], [0, 1, 65280]],
+    ]
+    for h in fixed:
+        yield h
+    for _ in range(ctx.n(14, 260)):
+        h = []
+        for _ in range(rng.randint(2, 8)):
+            if rng.random() < 0.18:
+                h.append([1, rng.randrange(2)])
+            else:
+                h.append([0, rng.choice(HIST_CLASSES), rng.choice(HIST_TYPES + [rng.choice(T().types)["rdtype"]])])
+        # most histories are kept inside the safe fragment the theorem covers
+        if not history_safe(h) and rng.random() < 0.8:
+            h = [st for st in h if not (st[0] == 0 and st[1] == 255)] or [[0, 1, 1]]
+        ctx.count("history:" + ("safe" if history_safe(h) else "any-first"))
+        yield h
 
 
 def break_value(rng, t, vals):
@@ -411,7 +474,7 @@ def break_value(rng, t, vals):
 
 
 def in_model(kind, case):
-    return case[0] in (1, 2)
+    return case[0] in (1, 2, 22)
 
 
 # ------------------------------------------------------------------ implementation
@@ -454,7 +517,40 @@ def impl(case):
         return [vals, re_]
     if op == 21:
         return dispatch_parent(case)
+    if op == 22:
+        return history_parent(case)
     raise ValueError(op)
+
+
+HISTORY_CHILD = r"""
+import json, sys
+import dns.rdata
+steps = json.loads(sys.stdin.read())
+out = []
+for st in steps:
+    if st[0] == 1:
+        dns.rdata.load_all_types(bool(st[1]))
+    else:
+        cls = dns.rdata.get_rdata_class(st[1], st[2])
+        if cls is dns.rdata.GenericRdata:
+            out.append(0)
+        else:
+            d = cls.__module__.split(".")[-2]
+            out.append([{"ANY": 255, "IN": 1, "CH": 3}[d], st[2]])
+json.dump(out, sys.stdout)
+"""
+
+
+def history_parent(case):
+    """run a lookup history in a pristine interpreter (nothing but dns.rdata imported)"""
+    import json
+    import subprocess
+
+    p = subprocess.run([sys.executable, "-c", HISTORY_CHILD], input=json.dumps(case[1]).encode(), stdout=subprocess.PIPE,
+                       stderr=subprocess.PIPE, timeout=120, env=dict(os.environ, PYTHONPATH=lib.REPO))
+    if p.returncode != 0:
+        return Err(900, "history child failed: " + p.stderr.decode()[-300:])
+    return json.loads(p.stdout.decode())
 
 
 def dispatch_parent(case):
@@ -538,6 +634,24 @@ def expect_after_decode(t, vals, o):
     return out
 
 
+def oracle_history(ctx, kind, case, out):
+    """every implemented (class, type) must be served by its implementation, whatever was looked
+    up before (otherwise records of that type stop being equal to their decoded form)"""
+    if isinstance(out, Err):
+        return [{"kind": "history:child", "what": "history child process failed: " + out.text}]
+    tab = T()
+    F = []
+    queries = [st for st in case[1] if st[0] == 0]
+    for i, (st, res) in enumerate(zip(queries, out)):
+        t = tab.lookup(st[1], st[2])
+        want = 0 if t is None else [t["rdclass"], t["rdtype"]]
+        if res != want:
+            F.append({"kind": "history:dispatch-depends-on-history", "unsafe_history": not history_safe(case[1]), "query": st[1:], "sig": ("hist", history_safe(case[1])),
+                      "what": f"get_rdata_class({st[1]}, {st[2]}) answered {res} instead of {want} after the earlier lookups of this history"})
+            break
+    return F
+
+
 def oracle_dispatch(ctx, kind, case, out):
     F = []
     _, mode, items = case
@@ -565,6 +679,8 @@ def oracle(ctx, kind, case, out):
     op = case[0]
     if op == 21:
         return oracle_dispatch(ctx, kind, case, out)
+    if op == 22:
+        return oracle_history(ctx, kind, case, out)
     cl, ty = case[1], case[2]
     tname = dns.rdatatype.to_text(ty)
 
